@@ -5,6 +5,7 @@ the model either carries it as an explicit `.panic site` outcome or the site is 
 -/
 import O2oModel.Expand
 import O2oModel.Props.C15
+import O2oModel.Lemmas.NoPanic
 namespace O2o
 
 inductive Disposition
@@ -63,13 +64,13 @@ def siteTable : List (Gen.Site × Disposition × String) := [
   (⟨"validate.rs", "validate", "index(x . applicable_to [& Kind :: RefInto])"⟩, .total, "[bool; 6] indexed through `impl Index<&Kind>`: every Kind maps to 0..5"),
   (⟨"validate.rs", "validate", "index(x . applicable_to [& Kind :: OwnedInto])"⟩, .total, "[bool; 6] indexed through `impl Index<&Kind>`: every Kind maps to 0..5"),
   (⟨"validate.rs", "validate", "index(x . applicable_to [& Kind :: RefInto])"⟩, .total, "[bool; 6] indexed through `impl Index<&Kind>`: every Kind maps to 0..5"),
-  (⟨"validate.rs", "validate", "unwrap(p . container_ty . as_ref ())"⟩, .guarded, "`p.container_ty.is_none() ||` comes first in the same condition"),
   (⟨"validate.rs", "validate_error_instrs", "unreachable!(\"13\")"⟩, .guarded, "error_instrs only ever receives Misplaced / Misnamed / UnrecognizedWithError (the model's ErrInstr has exactly these)"),
   (⟨"validate.rs", "validate_member_error_instrs", "unreachable!(\"14\")"⟩, .guarded, "error_instrs only ever receives Misplaced / Misnamed / UnrecognizedWithError (the model's ErrInstr has exactly these)"),
   (⟨"validate.rs", "validate_struct_attrs", "unwrap(attr . err_ty . as_ref ())"⟩, .guarded, "`attr.err_ty.is_some()` checked in the same condition"),
   (⟨"validate.rs", "validate_ghost_attrs", "index(x . applicable_to [kind])"⟩, .total, "[bool; 6] indexed through `impl Index<&Kind>`: every Kind maps to 0..5"),
   (⟨"validate.rs", "validate_ghost_attrs", "index(x . applicable_to [kind])"⟩, .total, "[bool; 6] indexed through `impl Index<&Kind>`: every Kind maps to 0..5"),
   (⟨"validate.rs", "validate_ghost_attrs", "unwrap(ghost_attr . attr . container_ty . as_ref ())"⟩, .guarded, "`.is_some() &&` / `.is_none() ||` short-circuits before the unwrap"),
+  (⟨"validate.rs", "validate_parent_member_type", "unwrap(p . container_ty . as_ref ())"⟩, .guarded, "`p.container_ty.is_none() ||` comes first in the same condition"),
   (⟨"validate.rs", "validate_parent_attrs", "unwrap(p . container_ty . as_ref ())"⟩, .guarded, "`.is_some() &&` / `.is_none() ||` short-circuits before the unwrap"),
   (⟨"validate.rs", "validate_parent_attrs", "unwrap(p . container_ty . as_ref ())"⟩, .guarded, "`.is_some() &&` / `.is_none() ||` short-circuits before the unwrap"),
   (⟨"expand.rs", "struct_init_block", "unwrap(group_paths . get (& path))"⟩, .guarded, "`contains_key` checked first"),
@@ -201,6 +202,19 @@ theorem C16_variant_not_ghost_from (ctx : ImplContext) (v : Variant) (hk : ctx.k
   have hg := (applicableAttr_ghost_iff _ _ _ _ g).mp h
   simp [variantContributes, hk, hg] at hc
 
+/-- C16 (site `get_stuff: ghost_attr.action.unwrap()`, struct members): a member that contributes a line to a From
+    conversion and whose applicable instruction is a ghost has a default value — a bare `#[ghost]` member leaves no
+    line (its value comes from the `..update`) — so `get_stuff`'s `Ghost` arm never unwraps `None` there -/
+theorem C16_site_get_stuff_ghost (ctx : ImplContext) (f : Field) (hk : ctx.kind.isFrom = true) (hs : fieldSkipped ctx f = false)
+    (g : FieldGhostAttrCore) (ha : f.attrs.applicableAttr ctx.kind ctx.fallible ctx.ty = some (.ghost g))
+    (obj : TS) (fp : Member → TS) (or : Member) :
+    ∃ ts, (ApplicableAttr.ghost g).getStuff obj fp ctx or = .ok ts := by
+  have hg := (applicableAttr_ghost_iff _ _ _ _ g).mp ha
+  simp only [fieldSkipped, hk, ghostNoDefault, hg, Bool.not_true, Bool.false_and, Bool.true_and, Bool.false_or] at hs
+  cases hact : g.action with
+  | none => simp [hact] at hs
+  | some act => exact ⟨quoteAction act none ctx, by simp [ApplicableAttr.getStuff, hact]⟩
+
 /-- the two accessors are total on every instruction that is not a ghost -/
 theorem C16_accessors_total (a : ApplicableAttr) (hng : ∀ g, a ≠ .ghost g) (m : Member) (fp : Option TS) (ctx : ImplContext) (or : TS) :
     (∃ x, a.getFieldNameOr m = .ok x) ∧ (∃ ts, a.getActionOr fp ctx or = .ok ts) := by
@@ -270,6 +284,44 @@ theorem C16_site_16_struct (s : Struct) (hv : validate (.struct s) = []) (ga : G
       apply ext_validateFields
       exact mem_foldl_of_step _ _ _ _ g hmem (fun y es hm => ext_ghostPatternPass _ y es _ hm)
         (fun es => by unfold ghostPatternPass; simp only [hid]; exact mem_insert_self _ _)
+    rw [hv] at this
+    cases this
+
+/-- C16 (site `GhostIdent::get_ident:unreachable(16)`, variant level): in an enum that validation accepts every entry
+    of every variant-level `#[ghosts]` instruction names a member -/
+theorem C16_site_16_variant (e : Enum) (hv : validate (.enum e) = []) (v : Variant) (hvm : v ∈ e.variants)
+    (ga : GhostsAttr) (hga : ga ∈ v.attrs.ghostsAttrs) (g : GhostData) (hg : g ∈ ga.attr.ghostData) :
+    ∃ m, g.ghostIdent.getIdent = .ok m := by
+  cases hid : g.ghostIdent with
+  | member m => exact ⟨m, rfl⟩
+  | destruction d =>
+    exfalso
+    have hmem : g ∈ v.attrs.ghostsAttrs.flatMap (fun x => x.attr.ghostData) := List.mem_flatMap.mpr ⟨ga, hga, hg⟩
+    have hmember : DataTypeMember.variant v ∈ (DataType.enum e).members := by
+      simp only [DataType.members, List.mem_map]
+      exact ⟨v, hvm, rfl⟩
+    have : "Variant-level #[ghosts(...)] should name a member of the other type's variant, not a pattern." ∈ validate (.enum e) := by
+      unfold validate
+      simp only
+      apply ext_validateEnd
+      refine mem_foldl_of_step _ _ _ _ (DataTypeMember.variant v) hmember
+        (fun y es hm => ext_validateMember _ _ _ _ y es _ hm) (fun es => ?_)
+      unfold validateMember
+      simp only
+      apply ext_validateMemberErrorInstrs
+      refine mem_foldl_of_mem _ _ _ _ (fun f es hm => ?_) ?_
+      · apply ext_validateMemberErrorInstrs
+        apply ext_validateDedicatedMemberAttrs
+        apply ext_validateDedicatedMemberAttrs
+        apply ext_parentTypePass
+        apply ext_barkAtMemberAttr
+        exact hm
+      · apply ext_validateDedicatedMemberAttrs
+        apply ext_validateDedicatedMemberAttrs
+        apply ext_validateDedicatedMemberAttrs
+        exact mem_foldl_of_step _ _ _ _ g hmem
+          (fun y es hm => ext_variantGhostChildPass y _ _ (ext_ghostPatternPass _ y es _ hm))
+          (fun es => ext_variantGhostChildPass g _ _ (by unfold ghostPatternPass; simp only [hid]; exact mem_insert_self _ _))
     rw [hv] at this
     cases this
 
@@ -442,5 +494,412 @@ theorem C16_parent_member_has_type (input : DataType) (hv : validate input = [])
       exact mem_insert_self _ _
     rw [hv] at this
     cases this
+
+/-! ### `struct_init_block_inner: g.child_path.as_ref().unwrap()` — a struct-level ghost entry in the member list -/
+
+theorem mem_insertByGr (x y : FieldContainer) (l : List FieldContainer) : y ∈ insertByGr x l → y = x ∨ y ∈ l := by
+  induction l with
+  | nil => intro h; simp [insertByGr] at h; exact Or.inl h
+  | cons z zs ih =>
+    unfold insertByGr
+    split
+    · intro h; simpa using h
+    · intro h
+      rcases List.mem_cons.mp h with h | h
+      · exact Or.inr (by simp [h])
+      · rcases ih h with h | h
+        · exact Or.inl h
+        · exact Or.inr (List.mem_cons_of_mem _ h)
+
+theorem mem_sortByGr (y : FieldContainer) (l : List FieldContainer) : y ∈ sortByGr l → y ∈ l := by
+  induction l with
+  | nil => intro h; simp [sortByGr] at h
+  | cons x xs ih =>
+    intro h
+    simp only [sortByGr, List.foldr_cons] at h
+    rcases mem_insertByGr x y _ h with h | h
+    · simp [h]
+    · exact List.mem_cons_of_mem _ (ih h)
+
+/-- the grouping state: the root key `""` is present from the start and stays, and every struct-level ghost entry that
+    made it into the list has a child path -/
+def GroupInv (st : GroupPaths × List FieldContainer) : Prop :=
+  (st.1.find? (·.1 == "")).isSome = true ∧
+    ∀ fc ∈ st.2, ∀ g, fc.fieldData = .ghostData g → g.childPath.isSome = true
+
+theorem makeTuple_keeps_root (gp : GroupPaths) (path : String) (fd : FieldData) (h : (gp.find? (·.1 == "")).isSome = true) :
+    ((makeTuple gp path fd).1.find? (·.1 == "")).isSome = true := by
+  unfold makeTuple
+  split
+  · exact h
+  · simp only [List.find?_append]
+    cases hf : gp.find? (·.1 == "") with
+    | none => simp [hf] at h
+    | some v => simp
+
+theorem makeTuple_data (gp : GroupPaths) (path : String) (fd : FieldData) : (makeTuple gp path fd).2.1.fieldData = fd := by
+  unfold makeTuple
+  split <;> rfl
+
+theorem groupInv_parentChild (x : Field) (ps : List ParentChildField) (st : GroupPaths × List FieldContainer) (h : GroupInv st) :
+    GroupInv (ps.foldl (parentChildGroupStep x) st) := by
+  induction ps generalizing st with
+  | nil => exact h
+  | cons pc rest ih =>
+    apply ih
+    refine ⟨makeTuple_keeps_root _ _ _ h.1, ?_⟩
+    intro fc hfc g hg
+    simp only [parentChildGroupStep, List.mem_append, List.mem_singleton] at hfc
+    rcases hfc with hfc | hfc
+    · exact h.2 fc hfc g hg
+    · subst hfc
+      rw [makeTuple_data] at hg
+      cases hg
+
+theorem groupInv_field (ctx : ImplContext) (st : GroupPaths × List FieldContainer) (x : Field) (h : GroupInv st) :
+    GroupInv (fieldGroupStep ctx st x) := by
+  unfold fieldGroupStep
+  split
+  · exact groupInv_parentChild x _ st h
+  · refine ⟨makeTuple_keeps_root _ _ _ h.1, ?_⟩
+    intro fc hfc g hg
+    simp only [List.mem_append, List.mem_singleton] at hfc
+    rcases hfc with hfc | hfc
+    · exact h.2 fc hfc g hg
+    · subst hfc
+      rw [makeTuple_data] at hg
+      cases hg
+
+theorem groupInv_ghost (st : GroupPaths × List FieldContainer) (g : GhostData) (h : GroupInv st) :
+    GroupInv (ghostGroupStep st g) := by
+  unfold ghostGroupStep
+  refine ⟨makeTuple_keeps_root _ _ _ h.1, ?_⟩
+  intro fc hfc g' hg'
+  simp only [] at hfc
+  split at hfc
+  · rename_i hnew
+    simp only [List.mem_append, List.mem_singleton] at hfc
+    rcases hfc with hfc | hfc
+    · exact h.2 fc hfc g' hg'
+    · subst hfc
+      rw [makeTuple_data] at hg'
+      cases hg'
+      -- the entry opened a group of its own: its key is not the root key, so it has a child path
+      cases hcp : g.childPath with
+      | some c => rfl
+      | none =>
+        exfalso
+        have hkey : ghostPathKey g = "" := by simp [ghostPathKey, hcp]
+        unfold makeTuple at hnew
+        rw [hkey] at hnew
+        cases hf : st.1.find? (·.1 == "") with
+        | none => have := h.1; simp [hf] at this
+        | some v => simp [hf] at hnew
+  · exact h.2 fc hfc g' hg'
+
+theorem foldl_inv {α β : Type} (P : β → Prop) (f : β → α → β) (hstep : ∀ b a, P b → P (f b a)) :
+    ∀ (l : List α) (b : β), P b → P (l.foldl f b) := by
+  intro l
+  induction l with
+  | nil => intro b hb; exact hb
+  | cons a rest ih => intro b hb; exact ih _ (hstep b a hb)
+
+/-- C16 (site `struct_init_block_inner: g.child_path.as_ref().unwrap()`): never reached, for any struct and any
+    conversion — a struct-level ghost entry stands in the member list handed to the descent only when it opened a group
+    of its own, and an entry without a child path has the root's key, which is there from the start -/
+theorem C16_site_ghost_child_path (input : Struct) (ctx : ImplContext) (fc : FieldContainer) (g : GhostData)
+    (hfc : fc ∈ groupedMembers input ctx) (hg : fc.fieldData = .ghostData g) : g.childPath.isSome = true := by
+  unfold groupedMembers at hfc
+  have h0 : GroupInv (([("", 0)], []) : GroupPaths × List FieldContainer) := ⟨by decide, by simp⟩
+  have h1 := foldl_inv GroupInv (fieldGroupStep ctx) (fun b a hb => groupInv_field ctx b a hb) input.fields _ h0
+  have h2 := foldl_inv GroupInv ghostGroupStep (fun b a hb => groupInv_ghost b a hb)
+    ((input.attrs.ghostsAttr ctx.ty ctx.kind).toList.flatMap (·.ghostData)) _ h1
+  exact h2.2 fc (mem_sortByGr fc _ hfc) g hg
+
+/-! ### `unreachable!("4")` and `unreachable!("9")` -/
+
+/-- C16 (site `variant_destruct_block:unreachable(4)`): never reached, for any variant and any conversion — the shape
+    computed in the first step is `struct`, `unit` or `tuple`, never left unspecified -/
+theorem C16_site_4_unreachable (input : Struct) (ctx : ImplContext) :
+    variantDestructBlock input ctx ≠ .error (.panic "expand.rs:variant_destruct_block:unreachable(4)") :=
+  vdb_np4 input ctx
+
+theorem cls_not_from (k : Kind) (h : k.cls = .into ∨ k.cls = .existing) : k.isFrom = false := by
+  cases hf : k.isFrom with
+  | false => rfl
+  | true => simp [Kind.cls, hf] at h
+
+/-- C16 (site `get_ident:unreachable(9)`): `render_struct_line` never reaches it for a member that contributes a line
+    (nor for a nested member of a `#[parent(..)]` list) — `get_ident` is only asked in the Into / IntoExisting arms
+    of a positional member under a struct-shaped counterpart, where the applicable instruction is never a ghost -/
+theorem C16_site_9_unreachable (f : Field) (ctx : ImplContext) (hint : TypeHint) (idx : Nat) (pc : Option ParentChildField)
+    (hs : pc = none → fieldSkipped ctx f = false) :
+    renderStructLine f ctx hint idx pc ≠ .error (.panic "expand.rs:ApplicableAttr::get_ident:unreachable(9)") := by
+  show NP _ _
+  unfold renderStructLine
+  simp only []
+  repeat' (first
+    | exact getStuff_np _ (by decide) _ _ _ _ _
+    | exact getActionOr_np _ _ _ _ _
+    | exact getFieldNameOr_np _ (by decide) _ _
+    | np_step)
+  all_goals
+    rename_i hattr hcls
+    apply getIdent_np9
+    intro g hg
+    subst hg
+    cases pc with
+    | some p => simp at hattr
+    | none =>
+      exact C16_member_not_ghost ctx f (cls_not_from _ (by simp [hcls])) (hs rfl) g hattr
+
+/-! ### every panic a member line can end in -/
+
+theorem orElse_map_cases (o1 : Option FieldGhostAttrCore) (o2 : Option MemberAttrCore) (v : ApplicableAttr)
+    (h : ((o1.map ApplicableAttr.ghost) <|> (o2.map ApplicableAttr.field)) = some v) :
+    (∃ g, v = .ghost g) ∨ (∃ c, v = .field c) := by
+  cases o1 with
+  | some g => simp at h; exact Or.inl ⟨g, h.symm⟩
+  | none =>
+    cases o2 with
+    | some c => simp at h; exact Or.inr ⟨c, h.symm⟩
+    | none => simp at h
+
+theorem applicableAttr_not_pc (a : MemberAttrs) (k : Kind) (fallible : Bool) (ty : TypePath) (p : ParentChildField) (k' : Kind) :
+    a.applicableAttr k fallible ty ≠ some (.parentChildField p k') := by
+  intro h
+  unfold MemberAttrs.applicableAttr at h
+  rcases orElse_map_cases _ _ _ h with ⟨g, hg⟩ | ⟨c, hc⟩
+  · cases hg
+  · cases hc
+
+theorem cls_from (k : Kind) (h : k.cls = .from_) : k.isFrom = true := by
+  cases hf : k.isFrom with
+  | true => rfl
+  | false => simp [Kind.cls, hf] at h; split at h <;> cases h
+
+/-- the applicable instruction of a member that contributes a line, seen by the accessors -/
+theorem getIdent_np_ctx (s : String) (h8 : "expand.rs:ApplicableAttr::get_ident:unreachable(8)" ≠ s)
+    (ctx : ImplContext) (f : Field) (attr : ApplicableAttr) (hs : fieldSkipped ctx f = false)
+    (hattr : f.attrs.applicableAttr ctx.kind ctx.fallible ctx.ty = some attr)
+    (hcls : ctx.kind.cls = .into ∨ ctx.kind.cls = .existing) : NP s attr.getIdent := by
+  cases attr with
+  | parentChildField p k => exact absurd hattr (applicableAttr_not_pc _ _ _ _ p k)
+  | ghost g => exact absurd hattr (C16_member_not_ghost ctx f (cls_not_from _ hcls) hs g)
+  | field c =>
+    simp only [ApplicableAttr.getIdent]
+    split
+    · exact NP.ok _ _
+    · exact NP.panicAt _ _ h8
+
+theorem getFieldNameOr_np_ctx (s : String)
+    (ctx : ImplContext) (f : Field) (attr : ApplicableAttr) (m : Member) (hs : fieldSkipped ctx f = false)
+    (hattr : f.attrs.applicableAttr ctx.kind ctx.fallible ctx.ty = some attr)
+    (hcls : ctx.kind.cls = .into ∨ ctx.kind.cls = .existing) : NP s (attr.getFieldNameOr m) := by
+  cases attr with
+  | parentChildField p k => exact absurd hattr (applicableAttr_not_pc _ _ _ _ p k)
+  | ghost g => exact absurd hattr (C16_member_not_ghost ctx f (cls_not_from _ hcls) hs g)
+  | field c => simp only [ApplicableAttr.getFieldNameOr]; exact NP.ok _ _
+
+theorem getStuff_np_ctx (s : String)
+    (ctx : ImplContext) (f : Field) (attr : ApplicableAttr) (hs : fieldSkipped ctx f = false)
+    (hattr : f.attrs.applicableAttr ctx.kind ctx.fallible ctx.ty = some attr)
+    (hcls : ctx.kind.cls = .from_) (obj : TS) (fp : Member → TS) (or : Member) : NP s (attr.getStuff obj fp ctx or) := by
+  cases attr with
+  | parentChildField p k => exact absurd hattr (applicableAttr_not_pc _ _ _ _ p k)
+  | field c => simp only [ApplicableAttr.getStuff]; exact getStuffInner_np _ _ _ _ _ _ _
+  | ghost g =>
+    have hg := (applicableAttr_ghost_iff _ _ _ _ g).mp hattr
+    simp only [fieldSkipped, cls_from _ hcls, ghostNoDefault, hg, Bool.not_true, Bool.false_and, Bool.true_and, Bool.false_or] at hs
+    cases hact : g.action with
+    | none => simp [hact] at hs
+    | some act => simp only [ApplicableAttr.getStuff, hact]; exact NP.ok _ _
+
+/-- C16 (the member lines of a struct body, all sites at once): for a member that contributes a line — any conversion
+    kind, any shape hint, any position — `render_struct_line` either succeeds or stops at one of two sites, both listed
+    findings: `unreachable!("6")` (a positional member under a struct-shaped level without a name) and
+    `unreachable!("8")` (an instruction without a member name where the counterpart needs one). No other `unwrap`,
+    `unreachable!` or index of the functions it calls (`get_stuff`, `get_action_or`, `get_field_name_or`, `get_ident`)
+    can be reached from it. -/
+theorem C16_struct_line_panics (f : Field) (ctx : ImplContext) (hint : TypeHint) (idx : Nat) (s : String)
+    (hs : fieldSkipped ctx f = false)
+    (h : renderStructLine f ctx hint idx none = .error (.panic s)) :
+    s = "expand.rs:render_struct_line:unreachable(6)" ∨ s = "expand.rs:ApplicableAttr::get_ident:unreachable(8)" := by
+  by_cases h6 : "expand.rs:render_struct_line:unreachable(6)" = s
+  · exact Or.inl h6.symm
+  by_cases h8 : "expand.rs:ApplicableAttr::get_ident:unreachable(8)" = s
+  · exact Or.inr h8.symm
+  exfalso
+  revert h
+  show NP s _
+  unfold renderStructLine
+  simp only []
+  repeat' (first
+    | exact getActionOr_np _ _ _ _ _
+    | exact NP.panicAt _ _ h6
+    | exact getIdent_np_ctx _ h8 ctx f _ hs ‹_› (by first | exact Or.inl ‹_› | exact Or.inr ‹_›)
+    | exact getFieldNameOr_np_ctx _ ctx f _ _ hs ‹_› (by first | exact Or.inl ‹_› | exact Or.inr ‹_›)
+    | exact getStuff_np_ctx _ ctx f _ hs ‹_› ‹_› _ _ _
+    | np_step)
+
+theorem getIdent_np_pc (s : String) (h18 : "expand.rs:ApplicableAttr::get_ident:unreachable(18)" ≠ s)
+    (h19 : "expand.rs:ApplicableAttr::get_ident:unreachable(19)" ≠ s) (p : ParentChildField) (k : Kind) (attr : ApplicableAttr)
+    (ha : some (ApplicableAttr.parentChildField p k) = some attr) : NP s attr.getIdent := by
+  cases ha
+  simp only [ApplicableAttr.getIdent]
+  repeat' (first | exact NP.panicAt _ _ h18 | exact NP.panicAt _ _ h19 | np_step)
+
+theorem getFieldNameOr_np_pc (s : String) (p : ParentChildField) (k : Kind) (m : Member) (attr : ApplicableAttr)
+    (ha : some (ApplicableAttr.parentChildField p k) = some attr) : NP s (attr.getFieldNameOr m) := by
+  cases ha
+  simp only [ApplicableAttr.getFieldNameOr]
+  repeat' np_step
+
+theorem getStuff_np_pc (s : String) (p : ParentChildField) (k : Kind) (obj : TS) (fp : Member → TS) (ctx : ImplContext) (or : Member)
+    (attr : ApplicableAttr) (ha : some (ApplicableAttr.parentChildField p k) = some attr) : NP s (attr.getStuff obj fp ctx or) := by
+  cases ha
+  simp only [ApplicableAttr.getStuff]
+  repeat' (first | exact getStuffInner_np _ _ _ _ _ _ _ | np_step)
+
+/-- C16 (the lines of the nested members of a `#[parent(..)]` list, all sites at once): `render_struct_line` either
+    succeeds or stops at `unreachable!("18")` / `unreachable!("19")` — both listed findings (a positional nested member
+    under a struct-shaped level whose instruction names no member / has no instruction for the kind) -/
+theorem C16_parent_line_panics (f : Field) (ctx : ImplContext) (hint : TypeHint) (idx : Nat) (pc : ParentChildField) (s : String)
+    (h : renderStructLine f ctx hint idx (some pc) = .error (.panic s)) :
+    s = "expand.rs:ApplicableAttr::get_ident:unreachable(18)" ∨ s = "expand.rs:ApplicableAttr::get_ident:unreachable(19)" := by
+  by_cases h18 : "expand.rs:ApplicableAttr::get_ident:unreachable(18)" = s
+  · exact Or.inl h18.symm
+  by_cases h19 : "expand.rs:ApplicableAttr::get_ident:unreachable(19)" = s
+  · exact Or.inr h19.symm
+  exfalso
+  revert h
+  show NP s _
+  unfold renderStructLine
+  simp only []
+  repeat' (first
+    | exact getActionOr_np _ _ _ _ _
+    | exact getIdent_np_pc _ h18 h19 pc ctx.kind _ ‹_›
+    | exact getFieldNameOr_np_pc _ pc ctx.kind _ _ ‹_›
+    | exact getStuff_np_pc _ pc ctx.kind _ _ _ _ _ ‹_›
+    | exact absurd ‹some (ApplicableAttr.parentChildField pc ctx.kind) = none› (by simp)
+    | np_step)
+
+theorem first_np (s : String) (sc c : Bool) (X : E TS) (t : TS) (hX : NP s X) :
+    NP s (if sc = true then (do let ids ← X; pure (ids, TypeHint.struct)) else
+            if c = true then pure ([], TypeHint.unit) else pure (t, TypeHint.tuple) : E (TS × TypeHint)) := by
+  cases sc
+  · cases c <;> exact NP.pure _ _
+  · exact NP.bind _ _ _ hX (fun _ => NP.pure _ _)
+
+/-- C16 (`variant_destruct_block`, all sites at once): the destructuring pattern of a variant is either written or
+    the function stops at `GhostIdent::get_ident`'s `unreachable!("16")` (a destructuring pattern as the name of a
+    variant-level ghost; reported by validation since fix 54c4df8, `C16_site_16_struct`). `unreachable!("4")` and —
+    because ghost payload members are left out of a From pattern before their name is asked —
+    `get_field_name_or`'s `unreachable!("10")` cannot be reached from it. -/
+theorem C16_variant_destruct_panics (input : Struct) (ctx : ImplContext) (s : String)
+    (h : variantDestructBlock input ctx = .error (.panic s)) :
+    s = "attr.rs:GhostIdent::get_ident:unreachable(16)" := by
+  by_cases h16 : "attr.rs:GhostIdent::get_ident:unreachable(16)" = s
+  · exact h16.symm
+  exfalso
+  revert h
+  show NP s _
+  unfold variantDestructBlock
+  simp only []
+  apply NP.bind'
+  · apply first_np
+    apply NP.foldlM_mem
+    intro acc x hx
+    simp only [List.mem_filter] at hx
+    split
+    · rename_i a ha
+      split
+      · exact NP.pure _ _
+      · rename_i hfrom
+        have hfrom' : ctx.kind.isFrom = true := by simpa using hfrom
+        have hng : (x.attrs.ghost ctx.ty ctx.kind).isNone = true := by simpa [hfrom'] using hx.2
+        apply NP.bind _ _ _ ?_ (fun _ => NP.pure _ _)
+        cases a with
+        | ghost g =>
+          have := (applicableAttr_ghost_iff _ _ _ _ g).mp ha
+          simp [this] at hng
+        | field c => simp only [ApplicableAttr.getFieldNameOr]; exact NP.ok _ _
+        | parentChildField p k => exact absurd ha (applicableAttr_not_pc _ _ _ _ p k)
+    · exact NP.pure _ _
+  · intro a ha
+    obtain ⟨ids, hint⟩ := a
+    have hh : hint ≠ .unspecified := first_hint _ _ _ _ _ _ ha
+    apply NP.bind
+    · repeat' (first | exact ghostIdent_np _ h16 _ | np_step)
+    · intro ids2
+      cases hint with
+      | unspecified => exact absurd rfl hh
+      | struct => exact NP.pure _ _
+      | tuple => exact NP.pure _ _
+      | unit => exact NP.pure _ _
+
+theorem getStr_np (s : String) (h : "attr.rs:ChildPath::get_child_path_str:index" ≠ s) (c : ChildPath) (d : Option Nat) :
+    NP s (c.getStr d) := by
+  unfold ChildPath.getStr
+  split
+  · exact NP.ok _ _
+  · split
+    · exact NP.ok _ _
+    · intro e; injection e with e; injection e with e; exact h e
+
+theorem getStr_none_np (s : String) (c : ChildPath) : NP s (c.getStr none) := by
+  unfold ChildPath.getStr
+  exact NP.ok _ _
+
+/-- `render_ghost_line` for an Into / IntoExisting conversion stops, if at all, at `unreachable!("16")` -/
+theorem renderGhostLine_np (s : String) (h16 : "attr.rs:GhostIdent::get_ident:unreachable(16)" ≠ s)
+    (g : GhostData) (ctx : ImplContext) (hk : ctx.kind.isFrom = false) : NP s (renderGhostLine g ctx) := by
+  unfold renderGhostLine
+  simp only []
+  apply NP.bind _ _ _ (ghostIdent_np _ h16 _)
+  intro m
+  have hcls : ctx.kind.cls ≠ .from_ := by
+    intro hc
+    have := cls_from _ hc
+    simp [hk] at this
+  split <;> first | (split <;> exact NP.pure _ _) | exact NP.pure _ _ | (rename_i hc; exact absurd hc hcls)
+
+/-- C16 (the struct-level `#[ghosts]` lines of one level, all sites at once): they are only written for Into /
+    IntoExisting conversions, so `render_ghost_line`'s `unreachable!("7")` cannot be reached from here; what remains is
+    `unreachable!("16")` (a destructuring pattern as a ghost's name: reported by validation, `C16_site_16_struct`) and the
+    depth index of `get_child_path_str` -/
+theorem C16_struct_ghost_lines_panics (ctx : ImplContext) (fieldCtx : FieldCtx) (s : String)
+    (h : structGhostLines ctx fieldCtx = .error (.panic s)) :
+    s = "attr.rs:GhostIdent::get_ident:unreachable(16)" ∨ s = "attr.rs:ChildPath::get_child_path_str:index" := by
+  by_cases h16 : "attr.rs:GhostIdent::get_ident:unreachable(16)" = s
+  · exact Or.inl h16.symm
+  by_cases hix : "attr.rs:ChildPath::get_child_path_str:index" = s
+  · exact Or.inr hix.symm
+  exfalso
+  revert h
+  show NP s _
+  unfold structGhostLines
+  split
+  · rename_i hk
+    have hk' : ctx.kind.isFrom = false := by simpa using hk
+    split
+    · apply NP.foldlM
+      intro acc x
+      split
+      · apply NP.bind
+        · unfold GhostData.getChildPathStr
+          split
+          · exact getStr_none_np _ _
+          · exact NP.ok _ _
+        · intro a
+          apply NP.bind _ _ _ (getStr_np _ hix _ _)
+          intro b
+          split
+          · exact NP.bind _ _ _ (renderGhostLine_np _ h16 _ _ hk') (fun _ => NP.pure _ _)
+          · exact NP.pure _ _
+      · exact NP.bind _ _ _ (renderGhostLine_np _ h16 _ _ hk') (fun _ => NP.pure _ _)
+      · exact NP.pure _ _
+    · exact NP.pure _ _
+  · exact NP.pure _ _
 
 end O2o
